@@ -8,6 +8,30 @@ LD = np.longdouble
 DT = lc.DT
 
 
+# ------------------------------------------------------------------ constants
+# Every system of the event cells is built with constants=CONSTS.  The right-hand sides and the event functions READ them: inside a library call (flag set by
+# `in_library`) a constant that does not arrive falls back to a WRONG default, so dropping or mixing up the constants on the way to the user's functions changes
+# the trajectory / the roots.  Outside (the oracles' own evaluations) the functions use the true values.
+CONSTS = dict(gain=1.0, shift=0.0)
+_WRONG = dict(gain=3.0, shift=0.37)
+_STATE = dict(in_lib=False)
+
+
+class in_library(object):
+    def __enter__(self):
+        _STATE["in_lib"] = True
+
+    def __exit__(self, *a):
+        _STATE["in_lib"] = False
+        return False
+
+
+def const(kw, name):
+    if not _STATE["in_lib"]:
+        return CONSTS[name]
+    return kw[name] if name in kw else _WRONG[name]
+
+
 # ------------------------------------------------------------------ problems with closed forms
 class Lin(object):
     """y' = [1, -0.5]; y(t) = y0 + c (t - t0); y0 = [0.5, -1.0] at t0"""
@@ -19,7 +43,7 @@ class Lin(object):
         self.y0 = (0.5, -1.0)
 
     def f(self, t, y, **kw):
-        return np.array(self.slope, dtype=y.dtype)
+        return np.array(self.slope, dtype=y.dtype) * const(kw, "gain")
 
     def y(self, t):
         return np.array([LD(self.y0[0]) + (LD(t) - LD(self.t0)) * LD(self.slope[0]), LD(self.y0[1]) + (LD(t) - LD(self.t0)) * LD(self.slope[1])], dtype=LD)
@@ -37,7 +61,7 @@ class Osc(object):
         self.y0 = (float(np.sin(t0)), float(np.cos(t0)))
 
     def f(self, t, y, **kw):
-        return np.array([y[1], -y[0]], dtype=y.dtype)
+        return np.array([y[1], -y[0]], dtype=y.dtype) * const(kw, "gain")
 
     def y(self, t):
         return np.array([np.sin(LD(t)), np.cos(LD(t))], dtype=LD)
@@ -58,19 +82,19 @@ def make_event(spec, prob):
     tau = spec["tau"]
     if kind == "time":
         def g(t, y, **kw):
-            return np.asarray(s * (t - tau))
+            return np.asarray(s * (t - tau - const(kw, "shift")))
     elif kind == "double":
         tau2 = spec["tau2"]
         def g(t, y, **kw):
-            return np.asarray(s * (t - tau) * (t - tau2))
+            return np.asarray(s * (t - tau - const(kw, "shift")) * (t - tau2))
     elif kind == "state":
         level = float(prob.y(tau)[0])
         def g(t, y, **kw):
-            return np.asarray(s * (y[0] - level))
+            return np.asarray(s * (y[0] - level - const(kw, "shift")))
     elif kind == "dstate":
         level = float(prob.dy(tau)[0])
         def g(t, y, dy, **kw):
-            return np.asarray(s * (dy[0] - level))
+            return np.asarray(s * (dy[0] - level - const(kw, "shift")))
         g.requires_dstate = True
     else:
         raise KeyError(kind)
@@ -135,7 +159,7 @@ def run_system(case, events, callbacks=None, target=None):
     tol = case.get("tol", 1e-8)
     # 'against': the system is configured with the mirrored span; the direction of the run is chosen by integrate(t) alone
     tf_cfg = (2 * t0 - tf) if case.get("against") else tf
-    a = de.OdeSystem(prob.f, y0=y0, t=(dtype(t0), dtype(tf_cfg)), dt=dtype(case["dt0"]), rtol=dtype(tol), atol=dtype(tol), dense_output=bool(case["dense"]))
+    a = de.OdeSystem(prob.f, y0=y0, t=(dtype(t0), dtype(tf_cfg)), dt=dtype(case["dt0"]), rtol=dtype(tol), atol=dtype(tol), dense_output=bool(case["dense"]), constants=dict(CONSTS))
     a.method = lc.by_name(case["method"])
     b = driver.Budget(case.get("budget", 20000))
     cbs = list(callbacks or []) + [b]
@@ -143,10 +167,11 @@ def run_system(case, events, callbacks=None, target=None):
     if target is None and case.get("against"):
         target = dtype(tf)
     try:
-        if target is None:
-            a.integrate(events=events, callback=cbs)
-        else:
-            a.integrate(target, events=events, callback=cbs)
+        with in_library():
+            if target is None:
+                a.integrate(events=events, callback=cbs)
+            else:
+                a.integrate(target, events=events, callback=cbs)
     except de.exception_types.FailedIntegration as e:
         raised = "budget" if driver.budget_hit(e) else repr(e.__cause__)[:200]
     return a, prob, dtype, raised
